@@ -34,12 +34,36 @@ type bundleCase struct {
 	GOOS    string `json:"goos"`
 	GOARCH  string `json:"goarch"`
 	Out     bool   `json:"out"` // explicit output path (else a temporary file)
+	// Custom selects the entry-name leg: a single bundle next to the executable
+	// (FHS bin layout, started directly) whose archive holds exactly Entries, in
+	// this order, each with its own distinct payload.
+	Custom  bool     `json:"custom,omitempty"`
+	Entries []string `json:"entries,omitempty"`
+}
+
+// customShards is the number of children the entry-name leg is spread over.
+const customShards = 4
+
+func (c bundleCase) customShard() int {
+	h := 0
+	for _, b := range []byte(strings.Join(c.Entries, ",")) {
+		h = (h*31 + int(b)) % 1000003
+	}
+	return h % customShards
 }
 
 func (c bundleCase) layoutKey() string {
+	if c.Custom {
+		// all custom bundles of a shard are served by one child; the parent
+		// rewrites the bundle file before each request
+		return fmt.Sprintf("custom#%d", c.customShard())
+	}
 	return fmt.Sprintf("loc=%s;symlink=%v;dir=%s;reverse=%v", c.Loc, c.Symlink, c.Dir, c.Reverse)
 }
 func (c bundleCase) key() string {
+	if c.Custom {
+		return fmt.Sprintf("custom;entries=%s;platform=%s_%s;out=%v", strings.Join(c.Entries, ","), c.GOOS, c.GOARCH, c.Out)
+	}
 	return fmt.Sprintf("%s;platform=%s_%s;out=%v", c.layoutKey(), c.GOOS, c.GOARCH, c.Out)
 }
 
@@ -96,6 +120,38 @@ func writeBundle(path, where string, reverse bool) error {
 		return err
 	}
 	return os.WriteFile(path, buf.Bytes(), 0o600)
+}
+
+// customPayload is the distinct payload of a custom entry.
+func customPayload(name string) []byte {
+	return []byte("payload of archive entry <" + name + ">\x00\xff")
+}
+
+// writeCustomBundle writes a bundle holding exactly entries, in order. It is
+// written to a temporary name and renamed so the child never sees a torn file.
+func writeCustomBundle(path string, entries []string) error {
+	var buf bytes.Buffer
+	gz := gzip.NewWriter(&buf)
+	tw := tar.NewWriter(gz)
+	for _, n := range entries {
+		body := customPayload(n)
+		if err := tw.WriteHeader(&tar.Header{Name: n, Mode: 0o755, Size: int64(len(body)), Typeflag: tar.TypeReg}); err != nil {
+			return err
+		}
+		if _, err := tw.Write(body); err != nil {
+			return err
+		}
+	}
+	if err := tw.Close(); err != nil {
+		return err
+	}
+	if err := gz.Close(); err != nil {
+		return err
+	}
+	if err := os.WriteFile(path+".new", buf.Bytes(), 0o600); err != nil {
+		return err
+	}
+	return os.Rename(path+".new", path)
 }
 
 // bundleRequest / bundleReply are the parent <-> child protocol (one JSON line each).
@@ -156,11 +212,16 @@ type bundleLayout struct {
 	stdin io.WriteCloser
 	lines *bufio.Scanner
 	nOut  int
+	// current identifies the custom bundle presently on disk (entry-name leg)
+	current string
 }
 
 // startLayout builds <root>/<dir>/agentcheck (a hard link / copy of this test
 // binary), the bundles, and starts the child from there.
 func startLayout(t *testing.T, scratch, exeCopy string, c bundleCase, seq int) (*bundleLayout, error) {
+	if c.Custom {
+		c.Loc, c.Dir, c.Symlink = "custom", "bin", false
+	}
 	root := filepath.Join(scratch, fmt.Sprintf("layout%d", seq))
 	exeDir := filepath.Join(root, "prefix", c.Dir)
 	libexec := filepath.Join(root, "prefix", "libexec")
@@ -252,6 +313,46 @@ func (l *bundleLayout) stop() {
 func judgeBundle(c bundleCase, rep bundleReply) (what, class string) {
 	// the search order as documented: executable directory first, then (FHS "bin"
 	// layout only) ../libexec
+	if c.Custom {
+		// "The extracted agent is byte-for-byte the archive entry for the requested
+		// platform, and unknown platforms are rejected": the entry whose name is
+		// exactly goos_goarch, whatever else the archive holds and in whatever order.
+		name := c.GOOS + "_" + c.GOARCH
+		present := false
+		for _, e := range c.Entries {
+			if e == name {
+				present = true
+			}
+		}
+		if !present {
+			if rep.Err == "" {
+				src := "no entry's payload"
+				for _, e := range c.Entries {
+					if bytes.Equal(rep.Content, customPayload(e)) {
+						src = "the payload of entry " + e
+					}
+				}
+				return fmt.Sprintf("platform %q is not among the archive entries %v but extraction succeeded with %s", name, c.Entries, src), "bad"
+			}
+			return "", "custom-absent-rejected"
+		}
+		if rep.Err != "" {
+			return fmt.Sprintf("platform %q is among the archive entries %v but extraction failed: %s", name, c.Entries, rep.Err), "bad"
+		}
+		if rep.ReadErr != "" {
+			return rep.ReadErr, "bad"
+		}
+		if !bytes.Equal(rep.Content, customPayload(name)) {
+			src := "no entry's payload"
+			for _, e := range c.Entries {
+				if bytes.Equal(rep.Content, customPayload(e)) {
+					src = "the payload of entry " + e
+				}
+			}
+			return fmt.Sprintf("extracted agent for %q from archive %v is not that entry's payload; it equals %s", name, c.Entries, src), "bad"
+		}
+		return "", "custom-present-extracted"
+	}
 	used := ""
 	switch {
 	case c.Loc == "exe" || c.Loc == "both":
@@ -319,6 +420,55 @@ func judgeBundle(c bundleCase, rep bundleReply) (what, class string) {
 
 type bundlePlatform struct{ GOOS, GOARCH string }
 
+// orderedSubsets returns every permutation of every subset of names (the empty
+// archive included), in a deterministic order.
+func orderedSubsets(names []string) [][]string {
+	out := [][]string{{}}
+	var rec func(cur []string, used []bool)
+	rec = func(cur []string, used []bool) {
+		for i, n := range names {
+			if used[i] {
+				continue
+			}
+			next := append(append([]string(nil), cur...), n)
+			out = append(out, next)
+			used[i] = true
+			rec(next, used)
+			used[i] = false
+		}
+	}
+	rec(nil, make([]bool, len(names)))
+	return out
+}
+
+// customRequests derives the requested platforms for an alphabet of entry
+// names: every name itself, every proper prefix of a name that still contains
+// the goos/goarch separator, every name extended by one character, each split
+// into (goos, goarch) at its first underscore; plus goos-only forms.
+func customRequests(names []string) []bundlePlatform {
+	seen := map[string]bool{}
+	var out []bundlePlatform
+	add := func(full string) {
+		i := strings.IndexByte(full, '_')
+		if i < 0 || seen[full] {
+			return
+		}
+		seen[full] = true
+		out = append(out, bundlePlatform{full[:i], full[i+1:]})
+	}
+	for _, n := range names {
+		for l := 1; l <= len(n); l++ {
+			add(n[:l])
+		}
+		add(n + "x")
+		add(n + "_")
+		if !strings.Contains(n, "_") {
+			add(n + "_")
+		}
+	}
+	return out
+}
+
 func TestC46(t *testing.T) {
 	r := vr.New(t, "C46", "exploration")
 	defer r.Finish()
@@ -367,6 +517,13 @@ func TestC46(t *testing.T) {
 	}()
 	runOne := func(c bundleCase) (string, string, bundleReply) {
 		l := layoutFor(c)
+		if want := "custom:" + strings.Join(c.Entries, ","); c.Custom && l.current != want {
+			// rewrite the bundle only when the archive changes
+			if err := writeCustomBundle(filepath.Join(l.root, "prefix", "bin", agent.BundleName), c.Entries); err != nil {
+				t.Fatalf("INFRA: custom bundle %v: %v", c.Entries, err)
+			}
+			l.current = want
+		}
 		rep, err := l.ask(c)
 		if err != nil {
 			t.Fatalf("INFRA: layout %s: %v", c.layoutKey(), err)
@@ -398,7 +555,7 @@ func TestC46(t *testing.T) {
 	if vr.Thorough() {
 		dirs = []string{"bin", "tools"}
 	}
-	r.Rule(fmt.Sprintf("the test binary is hard-linked into <tmp>/prefix/<dir>/ and re-executed as a child that calls the real agent.ExecutableForPlatform; layouts = bundle (tar.gz built by the harness) present in {neither, executable directory, ../libexec, both with DISTINCT payloads and different platform sets} x executable started directly / through a symlink in another directory x executable directory name %v x archive entry order {forward, reverse}; per layout every platform of %v x output {temporary file, explicit path}. Non-trivial = at least one bundle exists; distinct by (layout, platform, output).", dirs, platforms))
+	r.Rule(fmt.Sprintf("the test binary is hard-linked into <tmp>/prefix/<dir>/ and re-executed as a child that calls the real agent.ExecutableForPlatform; layouts = bundle (tar.gz built by the harness) present in {neither, executable directory, ../libexec, both with DISTINCT payloads and different platform sets} x executable started directly / through a symlink in another directory x executable directory name %v x archive entry order {forward, reverse}; per layout every platform of %v x output {temporary file, explicit path}; non-trivial = at least one bundle exists. Entry-name leg: one bundle next to the executable whose archive holds every subset of an alphabet of prefix-related entry names (arm/arm64, ppc64/ppc64le, 3/38/386, linux/linuxx, arm64/arm64e, an entry with an extension, an entry without separator) in EVERY order with a distinct payload per entry, requested with every name, every proper prefix of a name that contains the separator, and every name extended by one character; non-trivial there = the archive holds an entry prefix-related to but different from the requested name. Distinct by (layout or archive, platform, output).", dirs, platforms))
 	r.Assume("linux: os.Executable resolves the symlink the child was started through, so the executable's directory is the real one in both start modes",
 		"BundleLocationDefault (the production setting) only; the build-directory mode used by integration tests is not explored",
 		"for an executable outside an FHS bin directory with a bundle in ../libexec only, both rejection and use of the libexec bundle are accepted (the statement is silent; the code documents libexec as searched for bin layouts only)",
@@ -441,6 +598,63 @@ func TestC46(t *testing.T) {
 		}
 		r.Add("layouts", 1)
 	}
+
+	// ---- entry-name leg: prefix-related platform names, every present/absent
+	// combination, every archive order ----
+	alphabets := [][]string{
+		{"linux_arm", "linux_arm64", "linux_ppc64", "linux_ppc64le"},
+		{"linux_3", "linux_38", "linux_386", "linuxx_386"},
+		{"darwin_arm64", "darwin_arm64e", "windows_amd64.exe", "linux"},
+	}
+	if vr.Thorough() {
+		alphabets = append(alphabets,
+			[]string{"linux_arm", "linux_arm64", "linux_arm64be", "linux_ppc64", "linux_ppc64le", "linuxx_arm"},
+			[]string{"linux_mips", "linux_mips64", "linux_mips64le", "linux_mipsle", "linu_x"})
+	}
+	type customBundle struct {
+		entries  []string
+		requests []bundlePlatform
+	}
+	var customs []customBundle
+	for _, alpha := range alphabets {
+		reqs := customRequests(alpha)
+		for _, entries := range orderedSubsets(alpha) {
+			customs = append(customs, customBundle{entries, reqs})
+		}
+	}
+	byShard := make([][]customBundle, customShards)
+	for _, cb := range customs {
+		sh := bundleCase{Custom: true, Entries: cb.entries}.customShard()
+		byShard[sh] = append(byShard[sh], cb)
+	}
+	vr.Parallel(customShards, func(sh int) {
+		for _, cb := range byShard[sh] {
+			for _, p := range cb.requests {
+				c := bundleCase{Custom: true, Entries: cb.entries, GOOS: p.GOOS, GOARCH: p.GOARCH}
+				what, class, _ := runOne(c)
+				// non-trivial: the archive holds an entry whose name is prefix-related
+				// to (but different from) the requested name
+				name := p.GOOS + "_" + p.GOARCH
+				related := false
+				for _, e := range cb.entries {
+					if e != name && (strings.HasPrefix(e, name) || strings.HasPrefix(name, e)) {
+						related = true
+					}
+				}
+				r.Case(c.key(), related)
+				if related {
+					class += "+prefix-related-entry"
+				}
+				r.Outcome(class)
+				if what != "" {
+					r.Violate(c.key(), what, c, func() bool { w, _, _ := runOne(c); return w != "" })
+				}
+			}
+		}
+	})
+	r.Set("custom_bundles", len(customs))
+	r.Sample(bundleCase{Custom: true, Entries: []string{"linux_arm64", "linux_arm"}, GOOS: "linux", GOARCH: "arm"})
+	r.Sample(bundleCase{Custom: true, Entries: []string{"linux_ppc64le", "linux_arm64"}, GOOS: "linux", GOARCH: "ppc64"})
 	r.Sample(bundleCase{Loc: "both", Symlink: false, Dir: "bin", GOOS: "linux", GOARCH: "amd64"})
 	r.Sample(bundleCase{Loc: "both", Symlink: true, Dir: "bin", Reverse: true, GOOS: "windows", GOARCH: "amd64", Out: true})
 	r.Sample(bundleCase{Loc: "libexec", Symlink: true, Dir: "bin", GOOS: "freebsd", GOARCH: "amd64"})
